@@ -294,6 +294,28 @@ class Woven:
             trailing = self.ct[c - 1][1] == ','
             self._ins(self.ct[c][2], ('' if empty or trailing else ', ') + text)
 
+    def thread(self, table, text='Tracked(w)'):
+        """T1: every call to a world-threaded function (fixed table) gains the ghost argument.  Idempotent
+        per call site: a call that already got the argument through an explicit add_arg is skipped."""
+        done = set()
+        for ch in self.chunks:
+            if ch.text.strip().rstrip(',').endswith(text) or ch.text.strip() == text:
+                done.add(ch.pos)
+        for pat in table:
+            full = pat + ' ('
+            n = self._find(full, count=True)
+            for k in range(n):
+                a, b = self._find(full, k)
+                if self.ct[a - 1][1] == 'fn':
+                    continue
+                c = match_close(self.ct, b)
+                if self.ct[c][2] in done:
+                    continue
+                empty = c == b + 1
+                trailing = self.ct[c - 1][1] == ','
+                self._ins(self.ct[c][2], ('' if empty or trailing else ', ') + text)
+                done.add(self.ct[c][2])
+
     def add_arg_if_present(self, callee_pattern, text):
         if self._find(callee_pattern + ' (', count=True):
             self.add_arg(callee_pattern, text)
